@@ -11,11 +11,14 @@ Reading guide
 * certificate: `ranking_unique`, `checkRanking_sound` — what the driver's checker establishes for
   every complete output of the real procedures.
 * model B `sortLog` (= `sortLogNondominated`): partition / grouping / truncation proved (`_partial`);
-  its ranking and its termination stay `def …_Statement` (certified per run by the checker).
+  termination proved (`sortLog_terminates`); its ranking stays `def sortLog_eq_sortStd_Statement`
+  (certified per run by the checker).
 -/
 import DeapModel.Lemmas.C04Std
 import DeapModel.Lemmas.C04Log
 import DeapModel.Lemmas.C04Cert
+import DeapModel.Lemmas.C04Term
+import Mathlib.Algebra.Order.Field.Rat
 
 set_option linter.unusedSectionVars false
 set_option linter.unusedSimpArgs false
@@ -332,19 +335,32 @@ theorem sortLog_truncation_partial (pop : List (Ind α)) (k : Nat) :
     | some r => obtain ⟨a, b, c⟩ := r; exact congrArg some (logTruncate_eq_leading _ k hk)
   · simp only [sortLogFirst, hk, ↓reduceIte]
 
-/-- **Not proved** (nothing depends on it): the divide-and-conquer procedure terminates on every
-population with at least two objectives … -/
-def sortLog_terminates_Statement : Prop :=
-  ∀ (pop : List (Ind α)) (m : Nat), 2 ≤ m → pop ≠ [] → (∀ x ∈ pop, x.w.length = m) →
-    ∀ k, (sortLog pop k).isSome = true
-
-/-- … and produces the same ranking as the quadratic one (front by front, up to order inside the
-fronts).  For every concrete run this is established by `checkRanking_sound` on the real output. -/
+/-- **Not proved** (nothing depends on it): the divide-and-conquer procedure produces the same
+ranking as the quadratic one (front by front, up to order inside the fronts).  For every concrete
+run this is established by `checkRanking_sound` on the real output. -/
 def sortLog_eq_sortStd_Statement : Prop :=
   ∀ (pop : List (Ind α)) (m : Nat), 2 ≤ m → pop ≠ [] → (∀ x ∈ pop, x.w.length = m) →
     ∀ k, ∃ fa fb, sortStd pop k false = some fa ∧ sortLog pop k = some fb ∧
       List.Forall₂ List.Perm fb fa
 
 end ModelB
+
+section Termination
+variable {𝕜 : Type} [Field 𝕜] [LinearOrder 𝕜] [IsStrictOrderedRing 𝕜] [Inhabited 𝕜]
+
+/-- **B1.**  Over an ordered field, model B finishes on every non-empty population whose fitnesses
+have `m ≥ 2` objectives: neither `sortNDHelperA` nor `sortNDHelperB` ever receives back from
+`splitA` / `splitB` the lists it passed in (the balance argument: the median lies between two
+elements, so an empty side can only be chosen when the objective is constant, which the callers
+exclude), and the objective index never falls below 1.  In Python this is "no infinite recursion". -/
+theorem sortLog_terminates (pop : List (Ind 𝕜)) (m : Nat) (hm : 2 ≤ m) (hne : pop ≠ [])
+    (hlen : ∀ x ∈ pop, x.w.length = m) (k : Nat) :
+    (sortLog pop k).isSome = true ∧ (sortLogFirst pop k).isSome = true :=
+  sortLog_isSome pop m hm hne hlen k
+
+example : (2 : Nat) ≤ 2 ∧ ([⟨0, [1, 2]⟩, ⟨1, [2, 1]⟩, ⟨2, [0, 0]⟩] : List (Ind ℚ)) ≠ [] ∧
+    ∀ x ∈ ([⟨0, [1, 2]⟩, ⟨1, [2, 1]⟩, ⟨2, [0, 0]⟩] : List (Ind ℚ)), x.w.length = 2 := by decide
+
+end Termination
 
 end C04
